@@ -43,6 +43,9 @@ def _bind(t: ast.AST, v: Any, env: Dict[str, Any]) -> None:
         raise CannotEval(src(t))
 
 
+_GEO: Dict[int, Any] = {}
+
+
 def positions_of(module: Module, e: ast.AST, env: Dict[str, Any]) -> List[Tuple[int, int]]:
     out: List[Tuple[int, int]] = []
 
@@ -95,6 +98,24 @@ def area_positions(index, selection: str, ys: Tuple[int, int], xs: Tuple[int, in
     m = index.method(area_cls, 'positions')
     if m is None:
         raise AnalysisError('anchor vanished: Area.positions')
+    if depth == 3:
+        # first reading: the pose interpreter (helpers, methods, chain, nested generators)
+        from .affine import Aff
+        from .geom import GeoInterp
+        C = Aff.const
+        ps_ = [a.arg for a in m.node.args.args]
+        try:
+            geo = _GEO.get(id(index))
+            if geo is None:
+                _GEO.clear()
+                geo = _GEO[id(index)] = GeoInterp(index)
+            r = geo.call(m, {ps_[0]: ('A', ((C(ys[0]), C(ys[1])), (C(xs[0]), C(xs[1])))),
+                             ps_[1]: ('S', selection)})
+            if r[0] == 'U' and all(c[0] == 'P' and c[1][0].is_const() and c[1][1].is_const()
+                                   for c in r[1]):
+                return [(int(c[1][0].k), int(c[1][1].k)) for c in r[1]]
+        except AnalysisError:
+            pass            # second reading below; its message is the one reported
     ps = [a.arg for a in m.node.args.args]
     sel = ps[1] if len(ps) > 1 else 'selection'
     env: Dict[str, Any] = {sel: selection, 'self.ymin': ys[0], 'self.ymax': ys[1],
